@@ -220,10 +220,24 @@ mksection .text
         btr     [state + _snow3g_init_done], WORD(idx)
 
 %ifdef SAFE_DATA
-        ;; clear keystream for processed job
-        vpxorq          ymm0, ymm0
-        shl             WORD(idx), 5 ;; ks stored at 32 byte offsets
+        ;; clear keystream for processed job and for NULL lanes
+        ;; (flush generates keystream of a valid job in NULL lanes)
+        vpxorq          zmm0, zmm0
+        vmovdqa64       zmm1, [state + _snow3g_job_in_lane]
+        vmovdqa64       zmm2, [state + _snow3g_job_in_lane + (8*8)]
+        vpcmpq          k1, zmm1, zmm0, 0 ; EQ ; mask of null jobs (L8)
+        vpcmpq          k2, zmm2, zmm0, 0 ; EQ ; mask of null jobs (H8)
+        kshiftlw        k3, k2, 8
+        korw            k3, k3, k1 ; mask of NULL jobs for all lanes
+        kmovw           DWORD(tmp), k3
+%%clear_ks_next_lane:
+        bsf             DWORD(idx), DWORD(tmp)
+        jz              %%clear_ks_done
+        btr             DWORD(tmp), DWORD(idx)
+        shl             DWORD(idx), 5 ;; ks stored at 32 byte offsets
         vmovdqa32       [state + _snow3g_ks + idx], ymm0
+        jmp             %%clear_ks_next_lane
+%%clear_ks_done:
 %endif
 
         jmp     %%return_uia2
